@@ -276,7 +276,7 @@ package cty
 //@   ensures[C05] stays_unknown: (=> (and (not (is_known v)) (not ((_ is box<*cty.refinementNumber>) (rfn_of v))) (not ((_ is box<*cty.refinementCollection>) (rfn_of v))) (not (is_coll_ty (vty v))) (not (is_number_ty (vty v)))) (not (is_known result)))
 //@   ensures[C06] wfm: (wf_marks result)
 //@   ensures[C04] nomarks: (=> (not (is_marked v)) (not (is_marked result)))
-//@   ensures[C06] wf: (=> (or (is_known v) (not (is_known result))) (wf_deep result))
+//@   ensures[C06] wf: (=> (or (is_known v) (not (is_known result)) (and (not ((_ is box<*cty.refinementCollection>) (rfn_of v))) (not (is_coll_ty (vty v))))) (wf_deep result))
 //@   ensures[C05] unrefined_stays_unknown: (=> (and (not (is_known v)) (= (rfn_of v) nil.Any)) (not (is_known result)))
 //@   ensures[C05] unrefined_coll: (=> (and (not (is_known v)) (= (rfn_of v) nil.Any) (is_coll_ty (vty v))) (and ((_ is box<*cty.refinementCollection>) (rfn_of result)) (= (rfn_len_lo (rfn_of result)) 0) (= (rfn_len_hi (rfn_of result)) 9223372036854775807) (= (rfn_null (rfn_of result)) 70)))
 //
